@@ -24,7 +24,7 @@ pub const EXT_VARIANTS: [&str; 3] = [
 ];
 
 /// (name, content). `%` in a content is replaced by nothing; contents are complete files.
-pub const SNIPPETS: [(&str, &str); 16] = [
+pub const SNIPPETS: [(&str, &str); 18] = [
     ("avatar", "import { iso } from '@iso';\nexport const Avatar = iso(`\n  field User.Avatar @component {\n    name\n    age\n  }\n`)(function AvatarComponent({ data }) { return null; });\n"),
     ("avatar2", "import { iso } from '@iso';\nexport const Avatar = iso(`\n  field User.Avatar @component {\n    name\n  }\n`)(function AvatarComponent({ data }) { return null; });\n"),
     ("home", "import { iso } from '@iso';\nexport const Home = iso(`\n  field Query.Home @component {\n    me {\n      name\n      Avatar\n    }\n    pets {\n      id\n      name\n    }\n  }\n`)(function HomeComponent({ data }) { return null; });\nconst e = iso(`entrypoint Query.Home`);\n"),
@@ -41,6 +41,9 @@ pub const SNIPPETS: [(&str, &str); 16] = [
     ("refetch", "import { iso } from '@iso';\nexport const R = iso(`\n  field Query.Refetcher @component {\n    pet(id: 1) {\n      name\n      __refetch\n    }\n  }\n`)(function RComponent({ data }) { return null; });\nconst e = iso(`entrypoint Query.Refetcher`);\n"),
     ("empty", ""),
     ("bad_entry", "import { iso } from '@iso';\nconst e = iso(`entrypoint Query.Missing`);\n"),
+    // the same client field (User.Avatar) selected @loadable here and plainly in `home`
+    ("lazy", "import { iso } from '@iso';\nexport const Lazy = iso(`\n  field Query.Lazy @component {\n    me {\n      id\n      Avatar @loadable\n    }\n  }\n`)(function LazyComponent({ data }) { return null; });\nconst e = iso(`entrypoint Query.Lazy`);\n"),
+    ("lazycard", "import { iso } from '@iso';\nexport const LazyCard = iso(`\n  field Query.LazyCard @component {\n    pets {\n      id\n      Card @loadable(lazyLoadArtifact: true)\n    }\n  }\n`)(function LazyCardComponent({ data }) { return null; });\nconst e = iso(`entrypoint Query.LazyCard`);\n"),
 ];
 
 /// Files of the world. `source` = has an extension the batch compiler reads.
